@@ -164,6 +164,7 @@ func (ex *Exec) resetStats(job Job, verbose int) {
 	ex.params = job.Params
 	ex.curHarness = spec.Name
 	ex.solver.stats = SolverStats{}
+	ex.qcache = nil // term ids are global, but keep the cache per job to bound memory
 }
 
 func (ex *Exec) collect(job Job, t0 time.Time) *JobResult {
@@ -440,7 +441,7 @@ func cmdRun(args []string) {
 		}
 		fmt.Printf("  fork-site x%d: %s\n", f.v, f.k)
 	}
-	fmt.Printf("  if-converted: %d\n", ex.ifConverted)
+	fmt.Printf("  if-converted: %d, query-cache hits: %d\n", ex.ifConverted, ex.qcacheHits)
 	ex.solver.Close()
 }
 
